@@ -271,17 +271,39 @@ def r4(ctx, rep):
             rep.instance(R4, ok=not probs, nontrivial=case)
             for p in probs:
                 rep.finding(R4, f'C01.R4/AdzHelper._apply/{case}/{p}', m.loc(HELPERS, fn), 'AdzHelper._apply', p)
+    # ClosingRule._apply folded: closes exactly the target's branch, adds nothing
     ca = m.func(RULES, 'ClosingRule._apply')
-    b = astq.stmts(ca)
-    ok = len(b) == 1 and astq.u(b[0]) == 'target.branch.close()' and 'final' in astq.decorators(ca)
+    rep.consult(m.loc(RULES, ca) + ' ClosingRule._apply')
+    from ..minieval import Interp as _I4, Obj as _O4
+    log = []
+    tb = _O4('branch', close=lambda: log.append('close'), append=lambda n_: log.append(('append', n_)), extend=lambda ns: log.append(('extend', ns)))
+    other = _O4('other-branch', close=lambda: log.append('close-other'))
+    tgt = _O4('target', branch=tb, get=lambda k, d=None: {'branch': tb}.get(k, d))
+    tgt.__class__ = type('T', (_O4,), {'__getitem__': lambda s_, k: {'branch': tb}[k]})
+    rule = _O4('rule', __srcclass__=(m, ClassRef(RULES, 'ClosingRule')), tableau=_O4('tableau', open=[other, tb]))
+    r = _I4({}, where='proof/rules.py ClosingRule._apply', modtree=m.trees[RULES]).safe(ca, [rule, tgt])
+    ok = log == ['close'] and r is None
     rep.instance(R4, ok=ok, nontrivial='ClosingRule._apply')
     if not ok:
-        rep.finding(R4, 'C01.R4/ClosingRule._apply', m.loc(RULES, ca), 'ClosingRule._apply', 'is not the @final `target.branch.close()`')
+        rep.finding(R4, 'C01.R4/ClosingRule._apply', m.loc(RULES, ca), 'ClosingRule._apply', f'applied to a target does {log} (result {r!r}); expected: close the target\'s branch, nothing else')
+    # BaseSimpleRule._apply folded: hands the same target to AdzHelper._apply, once
     ap = m.func(RULES, 'BaseSimpleRule._apply')
-    ok = astq.u(astq.stmts(ap)[-1]) == 'self[AdzHelper]._apply(target)'
+    rep.consult(m.loc(RULES, ap) + ' BaseSimpleRule._apply')
+    log = []
+    ADZ = _O4('AdzHelper')
+    helper = _O4('adz', _apply=lambda t: log.append(('adz', t)))
+
+    class RuleM(_O4):
+        def __getitem__(s_, k):
+            if k is not ADZ:
+                raise KeyError(k)
+            return helper
+    rule = RuleM('rule', __srcclass__=(m, ClassRef(RULES, 'BaseSimpleRule')))
+    r = _I4(dict(AdzHelper=ADZ), where='proof/rules.py BaseSimpleRule._apply', modtree=m.trees[RULES]).safe(ap, [rule, 'TARGET'])
+    ok = log == [('adz', 'TARGET')]
     rep.instance(R4, ok=ok, nontrivial='BaseSimpleRule._apply')
     if not ok:
-        rep.finding(R4, 'C01.R4/BaseSimpleRule._apply', m.loc(RULES, ap), 'BaseSimpleRule._apply', 'does not delegate to AdzHelper._apply')
+        rep.finding(R4, 'C01.R4/BaseSimpleRule._apply', m.loc(RULES, ap), 'BaseSimpleRule._apply', f'does {log} (result {r!r}) instead of handing the target to AdzHelper._apply once')
     # no logic rule overrides _apply
     n = 0
     for lg in ctx.lgs:
